@@ -52,7 +52,8 @@ func c08Objects() []c08Obj {
 		}
 		return c08Obj{fmt.Sprintf("C[%d,%d)", lo, hi), s.Build(), 2, lo, hi}
 	}
-	objs = append(objs, frag(0, 4), frag(4, 8), frag(8, 12), frag(2, 10))
+	// the last one starts where C[0,4) starts but is longer (two fragmentations with different size limits)
+	objs = append(objs, frag(0, 4), frag(4, 8), frag(8, 12), frag(2, 10), frag(0, 6))
 	return objs
 }
 
@@ -72,6 +73,8 @@ func (e c08Event) String() string {
 		return fmt.Sprintf("update(%c,%s)", 'A'+e.Obj, []string{"pending", "not-pending", "property", "expire-now"}[e.Arg])
 	case "delete":
 		return fmt.Sprintf("delete(%c)", 'A'+e.Obj)
+	case "stale-update":
+		return fmt.Sprintf("query(%c);delete(%c);update(%c,pending) with the queried copy", 'A'+e.Obj, 'A'+e.Obj, 'A'+e.Obj)
 	case "advance":
 		return fmt.Sprintf("advance(%ds)", e.Arg)
 	}
@@ -89,6 +92,9 @@ func c08Alphabet() []c08Event {
 		}
 		out = append(out, c08Event{Op: "delete", Obj: id})
 	}
+	// query-then-update, the pattern of the routing layer, with a deletion in between: the update of a record that
+	// no longer exists must not bring it back
+	out = append(out, c08Event{Op: "stale-update", Obj: 0}, c08Event{Op: "stale-update", Obj: 2})
 	out = append(out, c08Event{Op: "advance", Arg: 61}, c08Event{Op: "advance", Arg: 3600}, c08Event{Op: "sweep"}, c08Event{Op: "reopen"})
 	return out
 }
@@ -161,7 +167,7 @@ func (r *c08Ref) apply(e c08Event, objs []c08Obj) {
 		case 3:
 			rec.Expires = r.Now - 1000
 		}
-	case "delete":
+	case "delete", "stale-update":
 		delete(r.Recs, e.Obj)
 	case "advance":
 		r.Now += int64(e.Arg) * 1000
@@ -241,6 +247,17 @@ func (im *c08Impl) apply(e c08Event) error {
 		return im.store.Update(bi)
 	case "delete":
 		return im.store.Delete(im.bid(e.Obj))
+	case "stale-update":
+		bi, err := im.store.QueryId(im.bid(e.Obj))
+		if err != nil {
+			return nil
+		}
+		if derr := im.store.Delete(im.bid(e.Obj)); derr != nil {
+			return derr
+		}
+		bi.Pending = true
+		_ = im.store.Update(bi) // must fail or have no effect: the comparison with the reference decides
+		return nil
 	case "advance":
 		vtime.Advance(time.Duration(e.Arg) * time.Second)
 	case "sweep":
